@@ -332,7 +332,7 @@ func (p *polling) DoWrite(ctx *types.HttpContext, data types.BufferInterface, op
 		return
 	}
 
-	encoding := utils.Contains(ctx.Headers().Peek("Accept-Encoding"), []string{"gzip", "deflate", "br", "zstd"})
+	encoding := acceptedEncoding(ctx.Headers().Peek("Accept-Encoding"), []string{"gzip", "deflate", "br", "zstd"})
 	if encoding == "" {
 		respond(data, strconv.Itoa(data.Len()))
 		return
@@ -350,6 +350,31 @@ func (p *polling) DoWrite(ctx *types.HttpContext, data types.BufferInterface, op
 
 	headers.Set("Content-Encoding", encoding)
 	respond(buf, strconv.Itoa(buf.Len()))
+}
+
+// Returns the first of the supported content codings that the Accept-Encoding
+// header value names as a list element (a coding with q=0 is not acceptable).
+func acceptedEncoding(header string, supported []string) string {
+	accepted := map[string]bool{}
+	for _, element := range strings.Split(header, ",") {
+		coding, params, _ := strings.Cut(element, ";")
+		coding = strings.ToLower(strings.TrimSpace(coding))
+		if coding == "" {
+			continue
+		}
+		if q, ok := strings.CutPrefix(strings.ReplaceAll(strings.ToLower(params), " ", ""), "q="); ok {
+			if weight, err := strconv.ParseFloat(q, 64); err == nil && weight == 0 {
+				continue
+			}
+		}
+		accepted[coding] = true
+	}
+	for _, coding := range supported {
+		if accepted[coding] {
+			return coding
+		}
+	}
+	return ""
 }
 
 // Compresses data.
